@@ -682,6 +682,11 @@ func rulesC02(c *Ctx) {
 	slotsC08(c)
 	// names and strings are printed through the quoting helpers: they must invert the lexer
 	importRules(c, rulesC06, "C06.", "C02.quoting-", nil)
+	// a printed duration literal is read back by ParseDuration: what
+	// FormatDuration writes must be accepted and mean the same duration
+	importRules(c, rulesC08, "C08.", "C02.duration-", func(r string) bool {
+		return r == "C08.units" || r == "C08.overflow" || r == "C08.digits" || r == "C08.ladder"
+	})
 }
 
 func rulesC01(c *Ctx) {
